@@ -371,6 +371,18 @@ func c07NestedRoot() (string, error) {
 	if err := os.CopyFS(filepath.Join(root, "outer", "inner"), os.DirFS(filepath.Join(vBundledRoot, "testpic_8s"))); err != nil {
 		return "", err
 	}
+	// an asset whose VoD MPD carries UTCTiming elements of its own (shared, parsed MPD state that utc_ requests extend)
+	if err := os.CopyFS(filepath.Join(root, "utc3"), os.DirFS(filepath.Join(vBundledRoot, "testpic_2s"))); err != nil {
+		return "", err
+	}
+	mp := filepath.Join(root, "utc3", "Manifest.mpd")
+	if raw, err := os.ReadFile(mp); err == nil {
+		ut := `  <UTCTiming schemeIdUri="urn:mpeg:dash:utc:http-iso:2014" value="https://time.example.com/a"/>
+  <UTCTiming schemeIdUri="urn:mpeg:dash:utc:http-iso:2014" value="https://time.example.com/b"/>
+  <UTCTiming schemeIdUri="urn:mpeg:dash:utc:http-head:2014" value="https://time.example.com/c"/>
+`
+		_ = os.WriteFile(mp, []byte(strings.Replace(string(raw), "</MPD>", ut+"</MPD>", 1)), 0o644)
+	}
 	// a sibling whose name starts with the name of another asset
 	if err := os.CopyFS(filepath.Join(root, "outer_long"), os.DirFS(filepath.Join(vBundledRoot, "testpic_6s"))); err != nil {
 		return "", err
@@ -731,6 +743,10 @@ func TestVerifC07(t *testing.T) {
 				"/livesim2/outer_long/Manifest.mpd?nowMS=610000",
 				"/livesim2/outer_long/V300/100.m4s?nowMS=610000",
 				"/livesim2/outer_lon/V300/100.m4s?nowMS=610000",
+				"/livesim2/utc_httpiso/utc3/Manifest.mpd?nowMS=610000",
+				"/livesim2/utc_ntp-sntp/utc3/Manifest.mpd?nowMS=610000",
+				"/livesim2/utc_keep/utc3/Manifest.mpd?nowMS=610000",
+				"/livesim2/utc3/Manifest.mpd?nowMS=610000",
 			}
 			// every ordered pair of these requests on one server: the second answer is that of a fresh server
 			nfresh := map[string]c07Resp{}
@@ -754,6 +770,46 @@ func TestVerifC07(t *testing.T) {
 					rep.AddExecs(1)
 					if !rb.eq(nfresh[ub]) {
 						rep.Violate("C07.history", "response-depends-on-history:sibling-or-nested-asset", fmt.Sprintf("%s answers %v after %s on the same server, %v on a fresh server", ub, rb, ua, nfresh[ub]), map[string]any{"first": ua, "second": ub})
+					}
+				}
+			}
+			// the utc_ requests concurrently with each other (shared parsed MPD of the asset)
+			nBound := 1
+			if !quick {
+				nBound = 2
+			}
+			for _, pr := range [][2]string{{nurls[11], nurls[12]}, {nurls[12], nurls[11]}, {nurls[11], nurls[14]}, {nurls[12], nurls[13]}, {nurls[11], nurls[11]}} {
+				ua, ub := pr[0], pr[1]
+				for _, rev := range []bool{false, true} {
+					ro := opts
+					ro.ReverseOrder = rev
+					st := vrt.Explore(vrt.ExploreOpts{RunOpts: ro, Bound: nBound, MaxExec: 3000, DeadlineUnix: rep.DeadlineUnix(), FreeCost: 1}, func(s *vrt.Sched) {
+						var ra, rb c07Resp
+						ha := s.Spawn("a", func() { ra = c07Serve(nsrv, c07Elem{name: ua, url: ua, cmp: true}, true) })
+						hb := s.Spawn("b", func() { rb = c07Serve(nsrv, c07Elem{name: ub, url: ub, cmp: true}, true) })
+						s.Join(ha, hb)
+						if !ra.eq(nfresh[ua]) {
+							s.Fail("C07.concurrent:response-depends-on-concurrency:mpd+utc", fmt.Sprintf("%s answers %v while %s is served concurrently, alone it answers %v", ua, ra, ub, nfresh[ua]))
+						}
+						if !rb.eq(nfresh[ub]) {
+							s.Fail("C07.concurrent:response-depends-on-concurrency:mpd+utc", fmt.Sprintf("%s answers %v while %s is served concurrently, alone it answers %v", ub, rb, ua, nfresh[ub]))
+						}
+					})
+					rep.AddExecs(int64(st.Executions))
+					rep.Hit("C07.concurrent")
+					for _, f := range st.Failures {
+						clause, sig := "C07.crash", f.Sig
+						switch {
+						case strings.HasPrefix(f.Sig, "race:"):
+							clause = "C07.race"
+						case strings.HasPrefix(f.Sig, "C07."):
+							p := strings.SplitN(f.Sig, ":", 2)
+							clause, sig = p[0], p[1]
+						case strings.HasPrefix(f.Sig, "engine:"):
+							rep.Cap("pair: " + f.Sig)
+							continue
+						}
+						rep.Violate(clause, sig, f.Msg, map[string]any{"a": ua, "b": ub, "choices": f.Choices})
 					}
 				}
 			}
